@@ -16,6 +16,7 @@
 (*                                                                         *)
 (* c (the configuration record) comes from the harness together with the   *)
 (* DUT:  kind, dset, fl, pmax, ratio, reverse, w, vtc, cap, idw, odw, msb  *)
+(* (kind "shift" only: shift, with idw = data width)                       *)
 (***************************************************************************)
 EXTENDS Integers, Sequences, FiniteSets, TLC
 
@@ -51,6 +52,16 @@ Inputs(c) ==
 (* Items:  "id"/"down": <<data, first, last, param, vtc>>                  *)
 (*         "up"       : <<chunks, first, last, param, n>>                  *)
 (*         "gear"     : a bit                                              *)
+(*         "shift"    : <<data, first, last, param, nx>>  (stream.Shifter, a   *)
+(*                      PipelinedActor of latency 2): identity on handshakes,  *)
+(*                      first and last; the output word is the window          *)
+(*                      r[shift .. shift+idw-1] of r = {following word, own    *)
+(*                      word} ("Accumulate current/last sink.data ... Select   *)
+(*                      output data based on shift").  The following word is   *)
+(*                      what the sink carries in the next cycle in which the   *)
+(*                      element is ready (= its pipeline advances): nx = that  *)
+(*                      token's data, -2 = the producer was idle then (the     *)
+(*                      upper `shift` bits are don't-care), -1 = not yet known *)
 Closes(c, a, t) == Len(a) + 1 = c.ratio \/ t[3] = 1
 
 RECURSIVE OrField(_, _)
@@ -70,6 +81,7 @@ F(c, a, t) ==
                                 IF i = c.ratio THEN 1 ELSE 0 >>]
     [] c.kind = "up"   -> IF Closes(c, a, t) THEN << UpWord(c, Append(a, t)) >> ELSE << >>
     [] c.kind = "gear" -> [j \in 1..c.idw |-> Chunk(t[1], IF c.msb = 1 THEN c.idw - j ELSE j - 1, 1)]
+    [] c.kind = "shift" -> << <<t[1], t[2], t[3], t[4], -1>> >>
 
 Need(c) == IF c.kind = "gear" THEN c.odw ELSE 1
 
@@ -90,6 +102,13 @@ MatchHead(c, vis, ot) ==
            /\ e[2] = ot[2] /\ e[3] = ot[3] /\ e[4] = ot[4]
            /\ (c.vtc = 1 => e[5] = ot[5])
     [] c.kind = "gear" -> BitsVal(c, vis, 1) = ot[1]
+    [] c.kind = "shift" ->
+         LET e  == Head(vis)
+             lo == Pow2(c.idw - c.shift)        \* values of the part that comes from the token's own word
+         IN /\ e[5] # -1                        \* not before the following word was sampled (two pipeline advances)
+            /\ ot[1] % lo = e[1] \div Pow2(c.shift)
+            /\ (e[5] >= 0 => ot[1] \div lo = e[5] % Pow2(c.shift))
+            /\ e[2] = ot[2] /\ e[3] = ot[3] /\ e[4] = ot[4]
     [] OTHER -> FALSE
 
 ---------------------------------------------------------------------------
@@ -113,10 +132,13 @@ CStep(c, iv, o) ==
       q1       == IF srcfire THEN Drop(q, nq) ELSE q
       pend1    == IF srcfire THEN pend + (need - nq) ELSE pend
       okdup    == sinkfire => pend1 <= Len(Ftok)
-      q2       == IF sinkfire /\ pend1 <= Len(Ftok) THEN q1 \o Drop(Ftok, pend1) ELSE q1
+      \* kind "shift": the youngest owed item learns its following word when the element is ready again
+      q1f      == IF c.kind = "shift" /\ o[1] = 1 /\ q1 # <<>> /\ q1[Len(q1)][5] = -1
+                  THEN [q1 EXCEPT ![Len(q1)][5] = IF offered THEN tok[1] ELSE -2] ELSE q1
+      q2       == IF sinkfire /\ pend1 <= Len(Ftok) THEN q1f \o Drop(Ftok, pend1) ELSE q1f
       okblock  == (c.kind = "block") => ~sinkfire
   IN
-  /\ q'     = IF Len(q2) <= c.cap THEN q2 ELSE q1   \* saturate (Bounded is then already false)
+  /\ q'     = IF Len(q2) <= c.cap THEN q2 ELSE q1f  \* saturate (Bounded is then already false)
   /\ pend'  = IF sinkfire THEN 0 ELSE Min(pend1, Len(Ftok) + 1)   \* saturate (okorder is then already false)
   /\ acc'   = IF sinkfire /\ c.kind = "up"
               THEN (IF Closes(c, acc, tok) THEN <<>> ELSE Append(acc, tok))
